@@ -16,7 +16,7 @@ def entryPoints : List String := lockTable.map (·.1)
 /-- functions (containing a statement that mutates sync state) reached while applying one event -/
 def eventFns : List String :=
   ["SideState._set_exists", "SideState._set_mtime", "SideState.uncorrupt", "SyncEntry.unignore",
-   "SyncState._change_oid", "SyncState._change_path", "SyncState._storage_update", "SyncState._update_kids",
+   "SyncState._change_oid", "SyncState._change_path", "SyncState._storage_update", "SyncState._update_kids", "SyncState._update_kids_of",
    "SyncState.mark_changed", "SyncState.storage_commit", "SyncState.update", "SyncState.update_entry",
    "SyncState.updated"]
 
@@ -33,7 +33,7 @@ def syncFns : List String :=
    "SyncManager.handle_path_change_or_creation", "SyncManager.handle_rename", "SyncManager.handle_split_conflict",
    "SyncManager.resolve_conflict", "SyncManager.sync", "SyncManager.unsafe_mkdir_synced",
    "SyncManager.upload_synced", "SyncState._change_oid", "SyncState._change_path", "SyncState._storage_update",
-   "SyncState._update_kids", "SyncState.finished", "SyncState.mark_changed", "SyncState.split",
+   "SyncState._update_kids", "SyncState._update_kids_of", "SyncState.finished", "SyncState.mark_changed", "SyncState.split",
    "SyncState.storage_commit", "SyncState.unconditionally_get_latest", "SyncState.unconditionally_get_no_info",
    "SyncState.update", "SyncState.update_entry", "SyncState.updated"]
 
@@ -43,7 +43,7 @@ def syncFns : List String :=
     too before fix F7; they now take `state.lock` around the whole request.) -/
 def smartRequestFns : List String :=
   ["SideState._set_exists", "SideState._set_mtime", "SideState.clear", "SideState.uncorrupt",
-   "SmartSyncState._smart_sync_ent", "SyncState._change_oid", "SyncState._change_path", "SyncState._update_kids",
+   "SmartSyncState._smart_sync_ent", "SyncState._change_oid", "SyncState._change_path", "SyncState._update_kids", "SyncState._update_kids_of",
    "SyncState.mark_changed", "SyncState.update_entry", "SyncState.updated"]
 
 /-- everything `smart_unsync_oid/_path` reaches: `SmartCloudSync._smart_unsync_ent` refreshes and synchronises one entry —
@@ -61,20 +61,20 @@ def smartUnsyncFns : List String :=
    "SyncManager.handle_corrupt", "SyncManager.handle_hash_diff", "SyncManager.handle_path_change_or_creation",
    "SyncManager.handle_rename", "SyncManager.handle_split_conflict", "SyncManager.resolve_conflict",
    "SyncManager.sync", "SyncManager.unsafe_mkdir_synced", "SyncManager.upload_synced", "SyncState._change_oid",
-   "SyncState._change_path", "SyncState._storage_update", "SyncState._update_kids", "SyncState.finished",
+   "SyncState._change_path", "SyncState._storage_update", "SyncState._update_kids", "SyncState._update_kids_of", "SyncState.finished",
    "SyncState.mark_changed", "SyncState.split", "SyncState.storage_commit", "SyncState.unconditionally_get_latest",
    "SyncState.unconditionally_get_no_info", "SyncState.update", "SyncState.update_entry", "SyncState.updated"]
 
 /-- `smart_delete_path`: its `if remote_path:` block; under `state.lock` since fix F7 (before: unlocked) -/
 def smartDeleteFns : List String :=
   ["SideState._set_exists", "SideState._set_mtime", "SideState.uncorrupt", "SmartCloudSync.smart_delete_path",
-   "SyncState._change_oid", "SyncState._change_path", "SyncState._update_kids", "SyncState.mark_changed",
+   "SyncState._change_oid", "SyncState._change_path", "SyncState._update_kids", "SyncState._update_kids_of", "SyncState.mark_changed",
    "SyncState.update_entry", "SyncState.updated"]
 
 /-- UNLOCKED: `SmartSyncState._smart_unsync_ent` (smartsync.py:133-142) called directly on the state object -/
 def stateUnsyncFns : List String :=
   ["SideState._set_exists", "SideState._set_mtime", "SideState.clear", "SideState.uncorrupt",
-   "SmartSyncState._smart_unsync_ent", "SyncState._change_oid", "SyncState._change_path", "SyncState._update_kids",
+   "SmartSyncState._smart_unsync_ent", "SyncState._change_oid", "SyncState._change_path", "SyncState._update_kids", "SyncState._update_kids_of",
    "SyncState.updated"]
 
 /-- THE AUDITED TABLE: entry point, functions reached only under the lock, functions reached on some path without it -/
